@@ -1220,6 +1220,8 @@ WITNESSES = [
     {'kind': 'nsum', 'series': {'kind': 'ratl', 'cls': 'ratl', 'form': 'hz', 'c': [-11, -2], 'beta': [4, -1], 's': 3}, 'range': [[3, '+inf']],
      'prec': 30, 'method': 'richardson'},
     {'kind': 'nprod', 'prod': {'form': 'wallis'}, 'range': [5, '+inf'], 'prec': 30, 'kw': {}},
+    {'kind': 'nprod', 'prod': {'form': 'p1'}, 'range': [6, '+inf'], 'prec': 30, 'kw': {'method': 'r'}},
+    {'kind': 'nsum', 'series': {'kind': 'geom', 'cls': 'geom-alt', 'c': [-8, -2], 'q': [-15, -4]}, 'range': [['-inf', '+inf']], 'prec': 259, 'method': 's'},
     {'kind': 'direct', 'sub': 'levin', 'series': {'kind': 'geom', 'cls': 'geom', 'c': [10, -2], 'q': [16, -5]}, 'start': 1, 'lmethod': 'levin',
      'variant': 'u', 'how': 'step_psum', 'prec': 53},
     {'kind': 'nsum', 'series': {'kind': 'ratl', 'cls': 'ratl', 'form': 'hz', 'c': [15, -2], 'beta': [3, -1], 's': 2}, 'range': [[10, '+inf']],
